@@ -41,7 +41,21 @@ require (
 const hookSrc = `// Package simhook is the seam through which the simulator owns controller behaviour.
 package simhook
 
-import "github.com/gopher-fleece/runtime"
+import (
+	"context"
+
+	"github.com/gopher-fleece/runtime"
+)
+
+// Auth is called by the authorization package of every engine with the engine's request object.
+var Auth func(ctx context.Context, engineReq any, check runtime.SecurityCheck) (context.Context, *runtime.SecurityError)
+
+func Authorize(ctx context.Context, engineReq any, check runtime.SecurityCheck) (context.Context, *runtime.SecurityError) {
+	if Auth == nil {
+		return ctx, nil
+	}
+	return Auth(ctx, engineReq, check)
+}
 
 // Invoke is called by every generated controller method.
 // op is "Controller.Method"; ret points at the value result (nil when the method only returns error).
@@ -57,9 +71,15 @@ func Call(ctl runtime.Controller, op string, ret any, args ...any) error {
 
 // SourceFiles returns relative path -> content.
 func (p *Project) SourceFiles() map[string]string {
-	out := map[string]string{
-		"go.mod":             goMod,
-		"simhook/simhook.go": hookSrc,
+	out := map[string]string{}
+	if p.Mod == "" {
+		out["go.mod"] = goMod
+	}
+	if p.Hook == "" {
+		out["simhook/simhook.go"] = hookSrc
+	}
+	for _, e := range Engines {
+		out["auth/"+e+"/auth.go"] = p.authSrc(e)
 	}
 	type fileAcc struct {
 		pkg     string
@@ -76,7 +96,7 @@ func (p *Project) SourceFiles() map[string]string {
 	}
 	useType := func(a *fileAcc, t TypeRef) {
 		if t.Pkg != "" && t.Pkg != a.pkg {
-			a.imports[Module+"/"+t.Pkg] = true
+			a.imports[p.ModPath()+"/"+t.Pkg] = true
 		}
 	}
 
@@ -135,7 +155,7 @@ func (p *Project) SourceFiles() map[string]string {
 		for mi := range c.Methods {
 			m := &c.Methods[mi]
 			ma := get(c.Pkg, m.File)
-			ma.imports[Module+"/simhook"] = true
+			ma.imports[p.HookPath()] = true
 			p.renderMethod(ma.imports, &ma.body, c, m, func(t TypeRef) { useType(ma, t) })
 		}
 	}
@@ -239,7 +259,7 @@ func (p *Project) renderMethod(imports map[string]bool, b *strings.Builder, c *C
 		}
 		args = append(args, prm.GoName)
 	}
-	op := c.Name + "." + m.Name
+	op := p.OpPrefix + c.Name + "." + m.Name
 	argList := ""
 	if len(args) > 0 {
 		argList = ", " + strings.Join(args, ", ")
@@ -298,7 +318,7 @@ func (p *Project) Config(o ConfigOpts) string {
 		"outputPath":      o.RoutesOut,
 		"outputFilePerms": "0644",
 		"authorizationConfig": m{
-			"authFileFullPackageName":    Module + "/auth/" + o.Engine,
+			"authFileFullPackageName":    p.ModPath() + "/auth/" + o.Engine,
 			"enforceSecurityOnAllRoutes": p.Enforce,
 		},
 		"validateResponsePayload": p.ValidateRsp,
@@ -315,4 +335,35 @@ func (p *Project) Config(o ConfigOpts) string {
 	}
 	b, _ := json.MarshalIndent(cfg, "", "  ")
 	return string(b)
+}
+
+// HookSource is the source of the shared simhook package.
+func HookSource() string { return hookSrc }
+
+func (p *Project) authSrc(engine string) string {
+	imp, typ := "", ""
+	switch engine {
+	case "gin":
+		imp, typ = `"github.com/gin-gonic/gin"`, "*gin.Context"
+	case "echo":
+		imp, typ = `"github.com/labstack/echo/v4"`, "echo.Context"
+	case "fiber":
+		imp, typ = `"github.com/gofiber/fiber/v2"`, "*fiber.Ctx"
+	default:
+		imp, typ = `"net/http"`, "*http.Request"
+	}
+	return fmt.Sprintf(`package auth
+
+import (
+	"context"
+
+	%s
+	"github.com/gopher-fleece/runtime"
+	simhook %q
+)
+
+func GleeceRequestAuthorization(ctx context.Context, req %s, check runtime.SecurityCheck) (context.Context, *runtime.SecurityError) {
+	return simhook.Authorize(ctx, req, check)
+}
+`, imp, p.HookPath(), typ)
 }
